@@ -268,6 +268,22 @@ def run_case(case, ctx):
                 ok, bad = False, {"key": kd, "got": float(val), "expected": e}
                 break
     ctx.check("broadcast==elementwise_scalar", ok, observed=bad, detail={"shared": bool(shared)})
+    # the inverse direction through the same broadcast: per-element curves x per-scenario cycle numbers
+    cyc = pd.Series(ND * 10 ** rng.uniform(-2.0, 1.0, len(idx)), index=idx)
+    resl = curves.woehler.load(cyc, pb_)
+    ok, bad = True, None
+    if not isinstance(resl, pd.Series) or len(resl) != m * q:
+        ok, bad = False, {"len": len(resl), "expected": m * q}
+    else:
+        for key, val in resl.items():
+            kd = dict(zip(resl.index.names, key if isinstance(key, tuple) else (key,)))
+            cur = curves.loc[kd["element_id"]].to_dict()
+            Nq_ = float(cyc.loc[(kd["element_id"], kd["scenario"])] if shared else cyc.loc[kd["scenario"]])
+            e = ref_load(cur, Nq_, pb_)
+            if not _close(float(val), e, 1e-9):
+                ok, bad = False, {"key": kd, "got": float(val), "expected": e}
+                break
+    ctx.check("broadcast==elementwise_scalar", ok, observed=bad, detail={"shared": bool(shared), "function": "load"})
 
     # curves with their own native failure probability each, evaluated at a target that is one row's native value
     nat = np.round(rng.uniform(0.05, 0.95, m), 3)
